@@ -407,8 +407,12 @@ def run_check(mod, tier, seed, replay=None):
         "wall_s": round(wall, 2),
         "violations": len(violations),
     }
-    os.makedirs(os.path.join(VERIF, "evidence"), exist_ok=True)
-    with open(os.path.join(VERIF, "evidence", prop + ".json"), "w") as f:
+    # evidence/ and replays/ describe runs against /repo; runs against a scratch tree (VERIF_REPO=..., used for
+    # seeded-change and mutant experiments) write their evidence elsewhere so they never overwrite it
+    evdir = os.path.join(VERIF, "evidence") if os.path.realpath(REPO) == "/repo" else os.environ.get(
+        "VERIF_ALT_EVIDENCE", "/tmp/verif_alt_evidence")
+    os.makedirs(evdir, exist_ok=True)
+    with open(os.path.join(evdir, prop + ".json"), "w") as f:
         json.dump(ev, f, ensure_ascii=False, indent=1, default=repr)
         f.write("\n")
 
